@@ -103,6 +103,18 @@ def signedChunkOutcome (chunkLen sigLen : Nat) : Out :=
   else if !signedChunkLengthChecked && chunkLen < sigLen then .crash "channelInstance.verifyAndDecrypt"
   else .noResponse
 
+/-! ### raw frames straight after the handshake -/
+
+/-- A frame whose connection-protocol header declares `size` bytes, sent after HEL/ACK (with or without
+    an open secure channel).  uacp refuses sizes below 8 and above the receive buffer; `readChunk` then
+    slices `b[:12]` off the message without looking at its length — harmless only while `Receive` hands
+    it a slice with the whole receive buffer as capacity (regenerated facts); everything else ends in a
+    decode / security error: the connection's channel is dropped, the server lives. -/
+def rawFrameOutcome (size : Nat) : Out :=
+  if size < 8 then .noResponse
+  else if size < 12 && !receiveBufFullCapacity && !readChunkChecksHeaderLen then .crash "SecureChannel.readChunk"
+  else .noResponse
+
 /-! ### closed form: requests that cannot crash -/
 
 def sessionKnown (st : St) (t : Tok) : Bool := (findSession st t).isSome
